@@ -41,7 +41,9 @@ fn with_pendings(rng: &mut Rng, s: &[Ev], density: u64) -> Vec<Ev> {
     }
     out
 }
-pub fn run(reg: &[Box<dyn TypeOps>], cfg: &Cfg, out: &mut dyn Write) {
+fn wfail(rng: &mut Rng) -> Ev { Ev::Fail(rng.below(N_WRITE_KINDS) as u8) }
+fn rfail(rng: &mut Rng) -> Ev { Ev::Fail(rng.below(N_READ_KINDS) as u8) }
+pub fn run(reg: &[Box<dyn TypeOps>], defaults: &[Option<&'static str>], cfg: &Cfg, out: &mut dyn Write) {
     let mut big = vec![0u8; 2048];
     let is_async = cfg.which == "async";
     for (tid, t) in reg.iter().enumerate() {
@@ -59,7 +61,8 @@ pub fn run(reg: &[Box<dyn TypeOps>], cfg: &Cfg, out: &mut dyn Write) {
             let mut inits = vec![];
             let mut sizes = vec![];
             for _ in 0..nmsg {
-                let d = gen_init(&sh, &mut rng, 0);
+                // now and then the type's default, written through the send guard's own `default_in_place`
+                let d = match defaults[tid] { Some(spec) if rng.chance(1, 5) => D::Def(Box::new(crate::parse_ds(spec).remove(0))), _ => gen_init(&sh, &mut rng, 0) };
                 if let Some(z) = size_of_init(t.as_ref(), &d, &mut big) { if z <= 300 { inits.push(d); sizes.push(z); } }
             }
             if inits.is_empty() { continue; }
@@ -90,7 +93,7 @@ pub fn run(reg: &[Box<dyn TypeOps>], cfg: &Cfg, out: &mut dyn Write) {
             for k in 0..nfault {
                 let at = if cfg.thorough { k } else { rng.below(base.len() as u64 + 1) as usize };
                 let mut s = base.clone();
-                s.insert(at.min(s.len()), if rng.chance(1, 2) { Ev::Fail } else { Ev::Zero });
+                s.insert(at.min(s.len()), if rng.chance(2, 3) { wfail(&mut rng) } else { Ev::Zero });
                 let s = if is_async { with_pendings(&mut rng, &s, 2) } else { s };
                 send_line(&s, &inits, out);
             }
@@ -98,7 +101,7 @@ pub fn run(reg: &[Box<dyn TypeOps>], cfg: &Cfg, out: &mut dyn Write) {
                 // flush outcomes: the script entry that follows the last byte of a message is the flush
                 let mut s = vec![Ev::N(sizes[0]), Ev::Pending, Ev::Pending, Ev::N(0)];
                 send_line(&s, &inits, out);
-                s = vec![Ev::N(sizes[0]), Ev::Fail];
+                s = vec![Ev::N(sizes[0]), wfail(&mut rng)];
                 send_line(&s, &inits, out);
             }
             // ---- the valid stream: what a clean sender produces
@@ -118,7 +121,7 @@ pub fn run(reg: &[Box<dyn TypeOps>], cfg: &Cfg, out: &mut dyn Write) {
             for _ in 0..(if cfg.thorough { 8 } else { 3 }) {
                 let mut c = composition(&mut rng, stream.len(), 9);
                 let at = rng.below(c.len() as u64 + 1) as usize;
-                c.insert(at, if rng.chance(2, 3) { Ev::Fail } else { Ev::Zero });
+                c.insert(at, if rng.chance(2, 3) { rfail(&mut rng) } else { Ev::Zero });
                 let c = if is_async { with_pendings(&mut rng, &c, 2) } else { c };
                 recv_line(&c, &stream, nrecv + 2, out);
             }
